@@ -43,3 +43,12 @@ package pool
 //@   trusted
 //@   spawns fn
 //@   modifies nothing
+
+// pooled bytes.Buffers (DoH request bodies)
+//@ func (p *BytesBufPool) Get() (b *bytes.Buffer)
+//@   trusted
+//@   modifies nothing
+//@   ensures b != nil
+//@ func (p *BytesBufPool) Release(b *bytes.Buffer)
+//@   trusted
+//@   modifies nothing
